@@ -148,7 +148,12 @@ def snoop_handle(layer: Any, pdu: bytes, direction: str) -> None:
     snoop.ecu_rx_id, snoop.ecu_tx_id = 0x7E0, 0x7E8
     if direction == "response":
         snoop.last_request = bytes([0x10, 0x01])
+    elif direction == "response-without-request":
+        snoop.last_request = None
     with contextlib.redirect_stdout(_SINK):
+        if direction == "response-after-undecodable-request":
+            snoop.last_request = bytes([0x10, 0x01])
+            snoop.handle_telegram(0x7E0, bytes([0xEE, 0xEE, 0xEE]))  # a request no service can decode
         snoop.handle_telegram(0x7E0 if direction == "request" else 0x7E8, pdu)
     _SINK.seek(0)
     _SINK.truncate()
@@ -174,6 +179,21 @@ def somersault_unit(unit: Tuple[str, int, int]) -> Part:
             alpha |= set(pre)
             if pre:
                 valid.append(pre)
+    # global negative responses: their constant prefixes (alone and behind every service's request prefix) and every
+    # constant / NRC value of every coding object join the alphabet
+    rq_prefixes = [b""] + [v for v in valid]
+    for gnr in layer.global_negative_responses:
+        for rp in rq_prefixes[:8]:
+            try:
+                pre = bytes(gnr.coded_const_prefix(request_prefix=rp))
+            except Exception:
+                continue
+            if pre and pre not in valid:
+                valid.append(pre)
+        for p_ in gnr.parameters:
+            for cv in ([getattr(p_, "coded_value", None)] + list(getattr(p_, "coded_values", []) or [])):
+                if isinstance(cv, int) and 0 <= cv < 256:
+                    alpha.add(cv)
     small = sorted(alpha)
     inputs: List[bytes] = []
     seen: Set[bytes] = set()
@@ -183,6 +203,8 @@ def somersault_unit(unit: Tuple[str, int, int]) -> Part:
     for v in valid:
         for tail in (b"", b"\x00", b"\x01\x02", b"\xff\xff\xff", b"\x00" * 8):
             inputs.append(v + tail)
+        for n in range(len(v)):
+            inputs.append(v[:n])
     for i, pdu in enumerate(inputs):
         if i % 4 != shard or pdu in seen:
             continue
@@ -192,7 +214,7 @@ def somersault_unit(unit: Tuple[str, int, int]) -> Part:
         part.add("nontrivial", digest((layer_name, type(exc).__name__ if exc else "ok", pdu[:1].hex())))
         judge(part, f"somersault/{layer_name}/decode", case, pdu, "..." if exc is None else None, exc, False, "layer.decode")
         # `odxtools snoop` feeds every reassembled telegram to handle_telegram(), which must survive anything
-        for direction in ("request", "response"):
+        for direction in ("request", "response", "response-without-request", "response-after-undecodable-request"):
             res, exc = guarded_decode(snoop_handle, layer, pdu, direction)
             part.count("evaluations")
             if exc is not None:
